@@ -4,6 +4,7 @@ import (
 	"encoding/json"
 	"errors"
 	"fmt"
+	"maps"
 	"reflect"
 	"strings"
 )
@@ -518,7 +519,9 @@ func (o *ObjectSchema) applySubObjectDefaultValues(propertyID string, property *
 	}
 	data := map[string]any{}
 	if _, ok := rawData[propertyID]; ok {
-		data = rawData[propertyID].(map[string]any)
+		// A copy: the value is the property's decoded default, which is cached in the schema and shared by all
+		// calls, including concurrent ones. Writing the sub-object's defaults into it would modify the schema.
+		data = maps.Clone(rawData[propertyID].(map[string]any))
 	}
 	subObjectDefaults := subObject.GetDefaults()
 	for k, v := range subObjectDefaults {
